@@ -31,8 +31,11 @@ CLAIMS = {
               "automata on exactly the same symbols, relates only equal item cores, gives every item exactly the union of the canonical "
               "lookaheads (nothing lost, nothing invented) and every cell exactly the actions items+lookaheads prescribe (plus "
               "right-nulled reductions for LALR_RN). Tie B: the verified checker runs on the real dumped table of every generated and "
-              "literature grammar x {LALR, LALR_PAGER, LALR_RN}; per table the comparison is complete. PARTIAL: universality over "
-              "grammars is by running the check on each generated grammar (no theorem about the construction algorithm); the "
+              "literature grammar x {LALR, LALR_PAGER, LALR_RN}; per table the comparison is complete. The construction itself is an "
+              "executable Lean model (Model/Table.lean) whose WHOLE table equals the real dump on every generated grammar "
+              "(structured families, Layout grammars; 0 differences), with construction_structural / construction_complete proved for "
+              "all grammars. PARTIAL: minimality of the lookaheads for all grammars (construction_covers) is not yet a theorem - "
+              "universality of the cover property is by running the verified check on each generated grammar; the "
               "consequence 'deterministic => unambiguous' awaits the C01 completeness theorem; 'LALR(1) => conflict-free under state "
               "splitting' is checked per grammar."),
         design_ref="5/C04",
@@ -102,8 +105,11 @@ CLAIMS = {
               "at most one action per cell) + accept only on STOP. Tie B: the certificate is executed on the table dumped from the "
               "real compiler for every generated grammar x {LALR, LALR_PAGER} (passing it also means no disambiguation took effect). "
               "Tie A: tparse, the byte-level model and the real LRParser are run on every input (all strings up to a length bound, "
-              "sentences, mutations) and compared with an independent membership oracle. Universality over grammars is by running "
-              "the verified certificate on each generated grammar, not by a theorem about the construction algorithm; the step 'string "
+              "sentences, mutations) and compared with an independent membership oracle. Universality over grammars: the table construction is an executable Lean model "
+              "(Model/Table.lean = LRTable::new) compared as a WHOLE with the real dump for every generated grammar (C04, C05: 0 "
+              "differences) and C01_construction_accepts_exactly proves the statement for EVERY grammar (decidable Table.gwf, no Layout "
+              "rule) whose model table is raw-deterministic, with no certificate run (construction_structural + construction_complete); "
+              "the certificates are still executed on every real table; the step 'string "
               "lexer on distinct single-character terminals = offer the next token iff the state has an action for it' IS proved: "
               "C01_bytes_agree_with_tokens / C01_bytes_accept_exactly(_checked) — for tables passing the executable Cert.singleCharLexer "
               "(run on every table) and inputs passing charEnvOk (run on every input's real match matrix) the byte-level model "
